@@ -598,6 +598,20 @@ fn gen_scenario(rng: &mut Rng) -> Scenario {
                     g.bound = true;
                     continue;
                 }
+                if rng.chance(1, 30) {
+                    // connect / re-connect in the middle of the program: the filter moves to the new peer
+                    let ph = rng.below(nh as u64) as usize;
+                    let pr = port_of(ph, rng.below(plan[ph].len() as u64) as usize, &plan);
+                    let to = if ph == h && rng.bool() {
+                        Dst::Loopback { port: pr }
+                    } else if rng.bool() {
+                        Dst::Name { host: ph as u8, port: pr }
+                    } else {
+                        Dst::Ip { host: ph as u8, port: pr }
+                    };
+                    ops.push(Op::Connect { to });
+                    continue;
+                }
                 let w: [u32; 9] = match role {
                     //            send recv try  rdbl sleep join leave flag drop
                     Role::Sender => [12, 1, 1, 0, 2, 1, 1, 1, 0],
